@@ -324,6 +324,12 @@ func (d *Decoder) decodeRegisteredObject() Object {
 		return nil
 	}
 
+	if _, isEnum := enumCrcs[crc]; isEnum && _typ.Kind() != reflect.Ptr {
+		// enums are registered as values (uint32 based types), not as pointers to structs: value of
+		// enum is crc code itself
+		return reflect.ValueOf(crc).Convert(_typ).Interface().(Object)
+	}
+
 	o := reflect.New(_typ.Elem()).Interface().(Object)
 
 	if m, ok := o.(Unmarshaler); ok {
